@@ -257,6 +257,11 @@ def render_top(spec):
                 secs["bonds"].append(f"{first[r - 1]} {f} 1 0.4 1000")
         for sec, rows in secs.items():
             if rows:
+                if spec.get("rng", 1) % 3 == 0:
+                    # the order of the lines inside a section carries no meaning: one topology in three lists them
+                    # shuffled (terms of a later residue before terms of an earlier one)
+                    import random
+                    random.Random(spec["rng"] + len(lines)).shuffle(rows)
                 lines.append(f"[ {sec} ]")
                 lines += rows
     lines += ["[ system ]", "x", "[ molecules ]"] + [f"{n} {c}" for n, c in spec["molecules"]]
